@@ -867,5 +867,17 @@ def mut_static_ref(r, m):
     return _apply(m, s, replace(s["expr"], p, new), "static-ref:physical")
 
 
-CATALOGUE = [mut_operand_kind, mut_operand_kind, mut_comparison, mut_comparison, mut_choice, mut_function,
+def mut_next(r, m):
+    """`$next` where it is not allowed: [requires] value, passed parameter, `let` value"""
+    s = _pick_sites(r, m, lambda s: s["pos"] in ("requires", "passed-int"))
+    if s is None:
+        return None
+    ints = [(p, n) for p, n in subterms(s["expr"]) if n[0] == "num" or (n[0] == "ref" and n[2] == "int")]
+    if not ints:
+        return None
+    p, _ = r.choice(ints)
+    return _apply(m, s, replace(s["expr"], p, ("raw", "$next")), "builtin:next-in-" + s["pos"])
+
+
+CATALOGUE = [mut_next, mut_operand_kind, mut_operand_kind, mut_comparison, mut_comparison, mut_choice, mut_function,
              mut_function, mut_position, mut_position, mut_parameter, mut_attribute, mut_attribute, mut_static_ref]
